@@ -17,6 +17,15 @@ from .spec import And, Or, Not, ite, AnyOf
 
 
 # ----------------------------------------------------------------------------- logging
+LOGGER_FACTORIES = ("getLogger", "getChild")
+
+
+def is_logger_factory(f):
+    """logging.getLogger / Logger.getChild hand out logger handles: they are evaluated (with concrete names)"""
+    return getattr(f, "__name__", "") in LOGGER_FACTORIES and (
+        getattr(f, "__module__", "") == "logging" or isinstance(getattr(f, "__self__", None), logging.Logger))
+
+
 def is_logging_callable(f):
     s = getattr(f, "__self__", None)
     if isinstance(s, (logging.Logger, logging.LoggerAdapter)):
